@@ -3,7 +3,7 @@
    Set / Get / Close+Open calls returns, call by call, what the contiguous-log
    specification (Wal/Spec.v) returns, and leaves the same abstract state.
    Only statements here; proofs live in Wal/SeqFacts*.v (invariant: Wal/SeqInv.v). *)
-From RW Require Import Base.Bytes Fmt.Codec Fmt.Frame Wal.Model Wal.Spec Wal.Hist
+From RW Require Import Base.Bytes Fmt.Codec Fmt.Frame Wal.Model Wal.Spec Wal.Hist Wal.BasicFacts
   Wal.SeqFactsMain Wal.SeqFactsCor.
 Open Scope N_scope.
 
@@ -11,6 +11,16 @@ Open Scope N_scope.
 Theorem C05_refines_spec : seq_refinement_stmt.
 Proof. exact seq_refinement. Qed.
 Print Assumptions C05_refines_spec.
+
+(* the first Open on an empty directory succeeds and yields the empty log, an
+   exact directory and an empty stable store *)
+Theorem C05_initial_refines :
+  forall c, cfg_ok c ->
+  exists w e, open_wal c fresh_env = (OOk w, e) /\ abs w (e_disk e) = sl_empty /\
+              dir_exact (e_disk e) = true /\ dk_stable (e_disk e) = [] /\
+              first_index (st_segs w) (st_tail w) = 0 /\ last_index (st_segs w) (st_tail w) = 0.
+Proof. exact first_open. Qed.
+Print Assumptions C05_initial_refines.
 
 (* After any history, GetLog i returns the stored entry exactly when the log is
    not empty and first <= i <= last, and ErrNotFound otherwise; the entry
